@@ -21,6 +21,8 @@ type GuardRow struct {
 	Except map[string]string
 	// MinSites: hand-confirmed minimum number of access sites.
 	MinSites int
+	// Only: if set, the row applies only to functions whose id satisfies it.
+	Only func(fnID string) bool
 }
 
 func (w *World) interfaces() []*types.Interface {
@@ -217,6 +219,9 @@ func checkGB(w *World, r *Report, la *LockAn, rule string, rows []GuardRow) {
 		for _, a := range accs {
 			if isFreshBase(a.Base) {
 				continue // constructor: object not yet shared
+			}
+			if row.Only != nil && !row.Only(fnID(outermost(a.Fn))) {
+				continue
 			}
 			total++
 			fid := fnID(outermost(a.Fn))
